@@ -26,6 +26,15 @@ def reproduces(f):
         chk.set("timeout", 20000)
         chk.add(s._solver.assertions())
         return str(chk.check()) == e["result"]
+    if e["kind"] == "order_pair":
+        def verdict(script):
+            r = pslib.Real()
+            r.run(script)
+            chk = z3.Solver()
+            chk.set("timeout", 20000)
+            chk.add(r.initialize()._solver.assertions())
+            return str(chk.check())
+        return verdict(f["script"]) == e["result"] and verdict(f["script2"]) == e["result2"]
     if e["kind"] in ("solution", "excel_name_erased"):
         import processscheduler as ps
         with smrun.silent():
